@@ -2,6 +2,16 @@
 //!
 //! This module contains utilities for BER simulation.
 
+// Verification seams (only with --cfg ldpc_toolbox_verif, which also requires
+// the out-of-tree verif_shim crate): threads, channels, clock, RNG source and
+// CPU count used by this module are taken from the shim.
+#[cfg(ldpc_toolbox_verif)]
+use ::verif_shim::num_cpus_shim as num_cpus;
+#[cfg(ldpc_toolbox_verif)]
+use ::verif_shim::rand_shim as rand;
+#[cfg(ldpc_toolbox_verif)]
+use ::verif_shim::std_shim as std;
+
 use super::{
     channel::{AwgnChannel, Channel},
     factory::Ber,
